@@ -19,7 +19,7 @@ RULE = ('seeded generator: circular / hexagon-like / segmented / off-centre / sp
 ASSUMPTIONS = ['modes linearly independent on the mask (condition number < 1e8), as the property requires']
 PLAN = {'quick': {'gen': 8}, 'thorough': {'gen': 16, 'tests': 1}}
 REQUIRED_BUCKETS = ['modes:contiguous', 'modes:noncontiguous', 'modes:unordered', 'modes:single-high', 'normalize:True',
-                    'normalize:False', 'coords:default', 'coords:supplied', 'mask:circular', 'mask:segmented', 'mask:offcentre', 'mask:weighted', 'mask:subaperture', 'cond>1e4', 'coords:switched']
+                    'normalize:False', 'coords:default', 'coords:supplied', 'mask:circular', 'mask:segmented', 'mask:offcentre', 'mask:weighted', 'mask:subaperture', 'cond>1e4', 'coords:switched', 'outside:fill', 'coeffs:vector-forms']
 REQUIRED_ANCHORS = ['anchor:zernike_fit', 'anchor:zernike_remove', 'anchor:zernike_compose', 'anchor:zernike_basis']
 REQUIRED_ORACLES = ['compose=own-basis', 'fit=coeffs', 'remove:residual-coeffs=0', 'remove=lstsq', 'remove:idempotent',
                     'remove:pure->0']
@@ -143,8 +143,13 @@ def workload(ctx, lentil):
             # masks enter only through their support: antialiased / weighted masks (values other than 0 and 1) are legal
             maskf = maskf * rng.uniform(0.2, 3.0, size=shape)
             ctx.bucket('mask:weighted')
+        full_arg = full
+        if i % 6 == 1:
+            # the coefficient vector as a row / column matrix, a list or a tuple
+            full_arg = [np.array([full]), np.array([full]).T, list(full), tuple(full)][(i // 6) % 4]
+            ctx.bucket('coeffs:vector-forms')
         try:
-            opd_l = lentil.zernike_compose(maskf, full, normalize=normalize, **kw)
+            opd_l = lentil.zernike_compose(maskf, full_arg, normalize=normalize, **kw)
         except Exception as e:
             ctx.check(False, 'compose=own-basis', f'compose|raises={type(e).__name__}', str(e), desc)
             continue
@@ -158,6 +163,23 @@ def workload(ctx, lentil):
                       'fitting a composed OPD does not return its coefficients', desc, scale=float(np.abs(coeffs).max()))
         except Exception as e:
             ctx.check(False, 'fit=coeffs', f'fit|raises={type(e).__name__}', str(e), desc)
+        if i % 5 == 2:
+            # measured maps carry a fill value (or NaN) where there is no aperture: samples outside the mask are not part of
+            # the least-squares problem
+            fill = [-32768.0, np.nan, 1.0, 9999.0][(i // 5) % 4]
+            ctx.bucket('outside:fill')
+            try:
+                fitf = lentil.zernike_fit(np.where(mask, opd_own, fill), maskf, modes, normalize=normalize, **kw)
+                ctx.close('fit=coeffs', np.asarray(fitf, float), coeffs, rtol, 'fit|coeffs|fill-outside-mask',
+                          'values of the OPD array outside the mask change the fitted coefficients', dict(desc, fill=repr(fill)),
+                          scale=float(np.abs(coeffs).max()))
+                if normalize:
+                    resf = np.asarray(lentil.zernike_remove(np.where(mask, opd_own, fill), maskf, modes, **kw), float)
+                    ctx.close('remove:pure->0', resf[mask], np.zeros(int(mask.sum())), rtol, 'remove|pure|fill-outside-mask',
+                              'values of the OPD array outside the mask change the residual inside it', dict(desc, fill=repr(fill)),
+                              scale=float(np.abs(opd_own).max()))
+            except Exception as e:
+                ctx.check(False, 'fit=coeffs', f'fit-fill|raises={type(e).__name__}', str(e), desc)
         # the same mask, modes and normalisation in the *other* coordinate system right afterwards (and back): a fit must
         # depend on its current arguments only, not on which coordinates an earlier call on the same mask used
         if i % 2 == 0 and not sub:
